@@ -27,7 +27,16 @@ type RenderOpts struct {
 	// semicolons, parentheses, quotes and backslashes gets its first octet written as \DDD
 	// (known finding escaped-only-token).
 	AvoidEscapedOnly bool
-	OnExcluded       func(class string)
+	// BlankWithNewline: a line break inside parentheses is always accompanied by a blank
+	// between two tokens (known finding paren-newline-merges-tokens).
+	BlankWithNewline bool
+	// KeepMissingTTLShape: a record that omits its TTL where the file has no TTL source keeps
+	// the line shape of the model ("owner type"; the other shapes are not asserted, see gen.go).
+	KeepMissingTTLShape bool
+	// NoComment511: no comment of exactly 511 characters inside parentheses (known finding
+	// comment-511-in-parens).
+	NoComment511 bool
+	OnExcluded   func(class string)
 }
 
 // LineSpan is the range of physical lines (1-based) of one item.
@@ -714,9 +723,16 @@ var sixShapes = map[string]string{
 
 func (r *renderer) record(it *Item, facts []RecFact) (string, error) {
 	owner := r.pickName(it.Owner, facts, func(f *RecFact) wm.Name { return f.AbsOwner }, true)
-	hasTTL, ttl := r.ttlChoice(it.HasTTL, it.TTL, facts, func(f *RecFact) (uint32, bool) { return f.EffTTL, f.AbsOwner != nil })
+	hasTTL, ttl := r.ttlChoice(it.HasTTL, it.TTL, facts, func(f *RecFact) (uint32, bool) { return f.EffTTL, f.AbsOwner != nil && !f.TTLUncertain })
 	hasClass, class := it.HasClass, it.Class
-	if !r.o.Plain && r.n(3) == 0 {
+	keepShape := false
+	for i := range facts {
+		keepShape = keepShape || (facts[i].NoTTLState && r.o.KeepMissingTTLShape)
+	}
+	if keepShape {
+		owner = it.Owner
+	}
+	if !r.o.Plain && !keepShape && r.n(3) == 0 {
 		if hasClass && class == 1 {
 			hasClass = false
 			r.use("class-respelled-omitted")
@@ -797,6 +813,16 @@ func (r *renderer) record(it *Item, facts []RecFact) (string, error) {
 
 // lineBreak is a newline inside parentheses, optionally preceded by a comment.
 func (r *renderer) lineBreak() string {
+	if r.p(2) && !r.noComment {
+		// a comment of exactly 511 characters (the lexer's comment buffer has 512 octets)
+		if !r.o.NoComment511 {
+			r.use("comment-511-in-parens")
+			return ";" + strings.Repeat("c", 510) + "\n"
+		}
+		if r.o.OnExcluded != nil {
+			r.o.OnExcluded("comment-511-in-parens")
+		}
+	}
 	if r.p(35) {
 		if r.noComment {
 			if r.o.OnExcluded != nil {
@@ -847,6 +873,20 @@ func (r *renderer) sep(parens bool, open *bool, afterKeyword bool) string {
 		}
 	}
 	if !blank {
+		hasNL := false
+		for _, a := range atoms {
+			hasNL = hasNL || strings.Contains(a, "\n")
+		}
+		if hasNL && !afterKeyword && r.n(2) == 1 {
+			// the line break alone separates the two tokens
+			if !r.o.BlankWithNewline {
+				r.use("bare-newline-in-parens")
+				return strings.Join(atoms, "")
+			}
+			if r.o.OnExcluded != nil {
+				r.o.OnExcluded("paren-newline-merges-tokens")
+			}
+		}
 		i := r.n(len(atoms) + 1)
 		if afterKeyword && r.o.BlankBeforeComment {
 			i = 0
